@@ -128,6 +128,11 @@ func remoteReadAt(client *http.Client, url string, p []byte, off int64) (n int, 
 		return 0, err
 	}
 	defer resp.Body.Close()
+	if resp.StatusCode != http.StatusPartialContent && !(resp.StatusCode == http.StatusOK && off == 0) {
+		// Not the requested range: an error page, or the whole file from a server that ignores
+		// the Range header. Its body must not be taken (and cached) for the file's bytes.
+		return 0, fmt.Errorf("unexpected status %q for range %s of %s", resp.Status, req.Header.Get("Range"), url)
+	}
 	{
 		n, err := io.ReadFull(resp.Body, p)
 		if err != nil {
